@@ -9,6 +9,7 @@ import (
 )
 
 var constantOne = constant.MakeInt64(1)
+var constantZero = constant.MakeInt64(0)
 
 // globals emits the package-level data the translated functions read: constant tables, the HMAC
 // constructor table (which hash each entry constructs), the default parameter sets
